@@ -665,6 +665,14 @@ fn corpus() -> Vec<Pair> {
         Pair { basis: hi.clone(), src: hi.clone(), bs: 8192, label: "corpus/identical-high-8192".into(), edit: None },
         Pair { basis: hi.clone(), src: shifted, bs: 8192, label: "corpus/shift1-high-8192".into(), edit: Some(1) },
         Pair { basis: vec![0xFF; 65536 * 2], src: vec![0xFF; 65536 * 2 + 5], bs: 65536, label: "corpus/ff-65536".into(), edit: None },
+        // seed C01-P: a basis ending in a SHORT all-zero chunk (padding), a source in which that padding has grown past a whole block
+        Pair { basis: { let mut b: Vec<u8> = (0..4096u32).map(|i| 1 + (i % 250) as u8).collect(); b.extend(vec![0u8; 1000]); b },
+               src: { let mut b: Vec<u8> = (0..4096u32).map(|i| 1 + (i % 250) as u8).collect(); b.extend(vec![0u8; 5000]); b }, bs: 2048, label: "corpus/zero-tail-grows-2048".into(), edit: None },
+        Pair { basis: { let mut b: Vec<u8> = (0..1024u32).map(|i| 3 + (i % 200) as u8).collect(); b.extend(vec![0u8; 100]); b },
+               src: { let mut b = vec![0u8; 1500]; b.extend((0..1024u32).map(|i| 3 + (i % 200) as u8)); b }, bs: 512, label: "corpus/zero-tail-moves-512".into(), edit: None },
+        // seed C16-P: the one legal block size that needs 17 bits, and a match that is only reached by SLIDING the window
+        Pair { basis: (0..65536u32 * 2).map(|i| 1 + ((i * 7 + i / 251) % 253) as u8).collect(),
+               src: { let mut s = vec![9u8]; s.extend((0..65536u32 * 2).map(|i| 1 + ((i * 7 + i / 251) % 253) as u8)); s }, bs: 65536, label: "corpus/shift1-65536".into(), edit: Some(1) },
     ]
 }
 
@@ -915,7 +923,11 @@ query = `patch` with full ops; answer = verdict + length and FNV hash of the byt
                 11 => { d.source_size = match rng.below(3) { 0 => 0, 1 => d.source_size + 1, _ => rng.next() }; }
                 12 => { d.basis_size = match rng.below(4) { 0 => 0, 1 => d.basis_size.saturating_sub(1), 2 => u64::MAX, _ => d.basis_size + 1000 }; }
                 13 => { d.block_size = *rng.pick(&[0u32, 1, 1000, 4096, u32::MAX]); }
-                14 => { let mut c = *d.checksum.as_bytes(); c[rng.below(32) as usize] ^= 1 << rng.below(8); d.checksum = StrongHash::from_bytes(c); }
+                14 => {
+                    // (seed C05-P: a delta whose checksum field is all zero was taken to "carry no checksum" and went unverified)
+                    if rng.coin(1, 3) { d.checksum = StrongHash::from_bytes([0u8; 32]); }
+                    else { let mut c = *d.checksum.as_bytes(); c[rng.below(32) as usize] ^= 1 << rng.below(8); d.checksum = StrongHash::from_bytes(c); }
+                }
                 _ => { d.ops.insert(0, DeltaOp::Copy { offset: rng.below(basis.len() as u64 + 10), len: rng.below(bs as u64 * 2) as u32 }); }
             }
         }
